@@ -369,6 +369,11 @@ def _terms_included(want, got):
     # terms count once on both sides
     want = sorted(set(want))
     got = sorted(set(got))
+    for w in [w for w in want if w.startswith('!')]:
+        # (another, still reviewed test of the same atoms on the merged site is not the dropped one)
+        if any(g.partition('@')[0] == w[1:] and g.partition('@')[2] and not g.partition('@')[2].startswith('~') and g not in want for g in got):
+            return False
+    want = [w for w in want if not w.startswith('!')]
     rest = list(got)
     pending = []
     # a term that names nothing but anonymous locals (`var:bool`) cannot be recognised again after any rewrite: it claims nothing
@@ -383,6 +388,15 @@ def _terms_included(want, got):
         same = [g for g in got if g.partition('@')[0] == wa]
         if wp and same and w not in same and all(_COMPLEMENT.get(wp.lstrip('~')) == g.partition('@')[2].lstrip('~') for g in same):
             return False
+    # identical tests count once -- but a reviewed test whose *opposite* outcome now also governs the site (one of several
+    # `if f(x).is_break() { break }` arms turned around: the site still runs after `F` of the others) is a changed test
+    for w in want:
+        wa, _, wp = w.partition('@')
+        comp = _COMPLEMENT.get(wp.lstrip('~'))
+        if comp:
+            c = wa + '@' + ('~' if wp.startswith('~') else '') + comp
+            if c in got and c not in want:
+                return False
     for w in want:
         if w in rest:
             rest.remove(w)
@@ -394,6 +408,12 @@ def _terms_included(want, got):
         for g in rest:
             ga, _, gp = g.partition('@')
             if ga == wa and (not wp or not gp or _vocab(wp) != _vocab(gp)):
+                # (a strong outcome against the weak *opposite* one is not "another way of writing it": the site used to run
+                # only after this outcome and is now certain after the other)
+                # (the other direction is a split: a site reachable after both outcomes, of which one piece now runs after one)
+                if wp and gp and not wp.startswith('~') and gp.startswith('~') and _vocab(wp) == _vocab(gp).lstrip('~') and _COMPLEMENT.get(wp) == gp.lstrip('~') \
+                        and not any(g2.partition('@')[0] == wa and g2.partition('@')[2].lstrip('~') == wp.lstrip('~') for g2 in got):
+                    continue
                 hit = g
                 break
             # match arms: the reviewed arms are among the arms under which the site runs now
@@ -438,6 +458,37 @@ def _sites_included(want, got):
 _COMPLEMENT = {'T': 'F', 'F': 'T', 'eq': 'ne', 'ne': 'eq', 'lt': 'ge', 'ge': 'lt', 'le': 'gt', 'gt': 'le'}
 
 
+_VCOMPLEMENT = {'Ok': 'Err', 'Err': 'Ok', 'Some': 'None', 'None': 'Some', 'Continue': 'Break', 'Break': 'Continue', 'Ready': 'Pending', 'Pending': 'Ready'}
+
+
+def _flipped_site(want, got):
+    """(reviewed site, found site, term) when a reviewed site that has no counterpart any more reappears with exactly one
+    of its tests on the complementary outcome (same atoms, same strength; every other reviewed term still there) -- an
+    inverted test, whatever else changed in the function"""
+    pool = [list(x) for x in got]
+    left = []
+    for w in sorted(want, key=lambda x: -len(x)):
+        hit = None
+        for k, g in enumerate(pool):
+            if _terms_included(w, g) and (hit is None or len(g) < len(pool[hit])):
+                hit = k
+        if hit is None:
+            left.append(w)
+        else:
+            pool.pop(hit)
+    for w in left:
+        for g in pool:
+            for t in w:
+                atoms, _, o = t.partition('@')
+                weak = '~' if o.startswith('~') else ''
+                comp = _COMPLEMENT.get(o.lstrip('~')) or _VCOMPLEMENT.get(o.lstrip('~'))
+                if not comp or all(a.startswith(('var', 'upvar:var')) for a in atoms.split('&')) and False:
+                    continue
+                if atoms + '@' + weak + comp in g and t not in g and _terms_included([x for x in w if x != t], g):
+                    return w, g, t
+    return None
+
+
 def _merge_complementary(sites):
     """two reviewed sites whose conditions contain one test with opposite outcomes (`if a {x; y} else {z; y}`: y under a@T
     and under a@F; `if o {return E}; if v > M {return E}`: E under o@T and under o@F & v > M) may legitimately become one
@@ -477,7 +528,10 @@ def _merge_complementary(sites):
                     continue
                 a[comp[0]] -= 1
                 b[comp[1]] -= 1
-                merged = sorted((a | b).elements())
+                # the merged site no longer depends on the test: `!atoms` = "not decided by a test of these atoms any more" (it may
+                # still mention them weakly -- `if a || b {E}` -- but a site that runs strictly after one outcome of the test
+                # is one of the two reviewed sites with its partner gone or changed, not their union)
+                merged = sorted(list((a | b).elements()) + ['!' + comp[0].partition('@')[0]])
                 sites = [s2 for k, s2 in enumerate(sites) if k not in (i, j)] + [merged]
                 changed = True
                 break
@@ -536,6 +590,24 @@ def error_kind_sites(F, f):
     return out
 
 
+def _err_combinators(F, f):
+    """control terms of the calls of Option / Result combinators that can produce an Err out of a test (`o.ok_or(E)`)"""
+    return [sorted(core.control_terms(F, f, bi)) for bi, t in f.calls(lambda t: t['fn'].startswith(('std::option::Option::ok_or', 'std::result::Result::or', 'std::option::Option::map_or', 'std::result::Result::map_or')))]
+
+
+def _ret_combinators(F, f):
+    """control terms of the places where the answer of `f` is computed by a call or a combinator rather than built in place"""
+    comb = []
+    for bi, si, pl, rv, ln in f.stmts():
+        if len(pl) == 1 and pl[0] == 0:
+            rc = core._ret_class_rv(rv, f)
+            if rc == '?' or 'call' in rc or (':' in rc and rc.split(':')[1][:1].islower()):
+                comb.append(sorted(core.control_terms(F, f, bi)))
+    for bi, t in f.calls(lambda t: t['d'] == [0]):
+        comb.append(sorted(core.control_terms(F, f, bi)))
+    return comb
+
+
 def check_guards(ctx, rid, prop):
     """reviewed guards: the set of conditions under which a reviewed action executes (dropping or adding a conjunct changes it)"""
     r = ctx.rule(rid, 'GUARD', 'guard census: each reviewed action executes under exactly the reviewed set of tests (a dropped or added conjunct changes the set)')
@@ -573,29 +645,29 @@ def check_guards(ctx, rid, prop):
         # every reviewed site (as its multiset of controlling terms) must still exist; additional sites are new behaviour, not a violation
         # (a site may acquire further controlling tests — e.g. a new early error exit above it — without violating anything:
         #  the reviewed terms must be included in the site's terms)
-        ok = _sites_included(want, got) or any(_sites_included(stage, got) for stage in _merge_complementary(want)) or _sites_included(_split_arms(want), got)
-        if not ok and e['action'] == 'err':
+        ok = _sites_included(want, got)
+        # the tolerances below explain reviewed sites that are *gone* (merged, folded into a combinator, moved into a helper);
+        # none of them may explain a site that is still there with one of its tests turned around
+        flipped = None if ok else _flipped_site(want, got)
+        if not ok and not flipped:
+            ok = any(_sites_included(stage, got) for stage in _merge_complementary(want)) or _sites_included(_split_arms(want), got)
+        if flipped:
+            pass
+        elif not ok and e['action'] == 'err':
             # `match o { Some(v) => Ok(v), None => Err(E) }` rewritten as `o.ok_or(E)`: the test moved into the combinator,
             # which is called under the remaining (outer) tests of the reviewed site
-            comb = [sorted(core.control_terms(F, f, bi)) for bi, t in f.calls(lambda t: t['fn'].startswith(('std::option::Option::ok_or', 'std::result::Result::or', 'std::option::Option::map_or', 'std::result::Result::map_or')))]
+            comb = _err_combinators(F, f)
             if comb:
                 pseudo = [list(w) for w in want if any(_terms_included(c, w) for c in comb)]
                 ok = _sites_included(want, got + pseudo)
-        if not ok and e['action'].startswith('ret:'):
+        if not ok and not flipped and e['action'].startswith('ret:'):
             # `match o { Some(r) => Ready(Some(Ok(r))), None => Ready(None) }` rewritten as `Ready(o.map(Ok))`: the answer is
             # computed by a combinator, under the remaining (outer) tests of the reviewed site
-            comb = []
-            for bi, si, pl, rv, ln in f.stmts():
-                if len(pl) == 1 and pl[0] == 0:
-                    rc = core._ret_class_rv(rv, f)
-                    if rc == '?' or 'call' in rc or (':' in rc and rc.split(':')[1][:1].islower()):
-                        comb.append(sorted(core.control_terms(F, f, bi)))
-            for bi, t in f.calls(lambda t: t['d'] == [0]):
-                comb.append(sorted(core.control_terms(F, f, bi)))
+            comb = _ret_combinators(F, f)
             if comb:
                 pseudo = [list(w) for w in want if any(_terms_included(c, w) for c in comb)]
                 ok = _sites_included(want, got + pseudo)
-        if not ok:
+        if not ok and not flipped:
             # a test moved into a small helper: compare the flattened atom sets, looking through helpers that are not
             # themselves reviewed atoms (the per-switch structure is lost across the helper boundary)
             def coarse(a):
